@@ -254,6 +254,31 @@ pub fn run(rep: &mut StageReport, tier: &str, _seed: u64, exe: &str) {
             v.push(("raw: trusted-CA client cert, trusting CA-A → server B (other-CA server)".to_string(), false, raw_attempt(sb.addr, &ca_a, id_a.clone(), &t(10)).await));
             v.push(("raw: no client certificate → server B".to_string(), false, raw_attempt(sb.addr, &read_der(&b.client_ca()).unwrap(), ClientIdentity::None, &t(11)).await));
             v.push(("raw: self-signed client cert → server B".to_string(), false, raw_attempt(sb.addr, &read_der(&b.client_ca()).unwrap(), id_ss.clone(), &t(12)).await));
+            // --- bundles: an untrusted end entity (whose key the peer holds) followed by certificates it merely
+            // *knows* — a legitimate client's certificate is public, the CA's too. Only the first certificate is proven
+            // by the handshake signature; nothing that follows may make the peer trusted.
+            {
+                let victim = read_der(&a.client_cert()).unwrap();
+                let ca_cert_a = read_der(&a.server_ca()).unwrap();
+                let b_leaf = read_der(&b.client_cert()).unwrap();
+                let b_key = read_der(&b.client_key()).unwrap();
+                let b_ca = read_der(&b.client_ca()).unwrap();
+                let bundles: Vec<(&str, Vec<Vec<u8>>, Vec<u8>)> = vec![
+                    ("[self-signed, a trusted client's certificate]", vec![ss_cert.clone(), victim.clone()], ss_key.clone()),
+                    ("[other-CA leaf, a trusted client's certificate]", vec![b_leaf.clone(), victim.clone()], b_key.clone()),
+                    ("[other-CA leaf, other CA, a trusted client's certificate]", vec![b_leaf.clone(), b_ca.clone(), victim.clone()], b_key.clone()),
+                    ("[self-signed, trusted CA's certificate, a trusted client's certificate]", vec![ss_cert.clone(), ca_cert_a.clone(), victim.clone()], ss_key.clone()),
+                    ("[self-signed, trusted CA's certificate]", vec![ss_cert.clone(), ca_cert_a.clone()], ss_key.clone()),
+                    ("[other-CA leaf, a trusted client's certificate, trusted CA's certificate]", vec![b_leaf.clone(), victim.clone(), ca_cert_a.clone()], b_key.clone()),
+                ];
+                let mut cell = 70u32;
+                for (what, chain, key) in bundles {
+                    cell += 1;
+                    v.push((format!("raw: client presents the bundle {} with the first certificate's key → server A", what), false, raw_attempt(sa.addr, &ca_a, ClientIdentity::Chain(chain, key), &t(cell)).await));
+                }
+                // control: a trusted client that also sends its CA's certificate is still served
+                v.push(("raw: trusted client presents [its certificate, its CA's certificate] → server A".to_string(), true, raw_attempt(sa.addr, &ca_a, ClientIdentity::Chain(vec![victim.clone(), ca_cert_a.clone()], read_der(&a.client_key()).unwrap()), &t(79)).await));
+            }
             let _ = id_srv; // (a server certificate used as client identity chains to the CA: the statement does not decide this cell)
             // --- untrusted client certificates with unusual validity periods: whatever their dates say, they do not
             // chain to the server's CA (self-signed, or signed by a CA minted here that nobody trusts)
